@@ -3,7 +3,9 @@
    next_offset, [s_pubs] every value written to it (newest first), [s3_end] one past
    the last offset held by S3 segment objects that have an index (0 when none).
    "Never ahead of S3" is proved in full; "never decreases" is refuted on the current
-   code (known finding hw-callback-reorder) and proved on the complement class. *)
+   code (known findings hw-callback-reorder and hw-empty-flush-publish-reorder), every
+   regression is shown to need an overtaken callback, and the statement is proved on the
+   complement class (callbacks that do not overlap). *)
 From KS Require Import lib.Base model.Storage proofs.StorageProofs.
 Open Scope Z_scope.
 
@@ -28,14 +30,38 @@ Theorem C05_monotone_refuted : ~ C05_monotone_statement.
 Proof. exact monotone_refuted. Qed.
 Print Assumptions C05_monotone_refuted.
 
-(* the statement on the complement of the finding's schedule class: runs of one broker
-   incarnation in which at most one onFlush callback is pending at any time
-   (any number of producers, any S3/store faults, empty flushes included).
-   What is missing: overlapping callbacks (the finding) and runs that continue after a
-   crash+restart (covered by C05_not_ahead, not by this monotonicity lemma). *)
-Theorem C05_monotone_partial : forall c s,
-  reach_serial c s -> nondecreasing_newest_first (s_pubs s).
-Proof. exact monotone_partial. Qed.
+(* second witness of the refutation, structurally different (known finding
+   hw-empty-flush-publish-reorder): the overwritten value comes from an EMPTY Flush that
+   re-publishes the committed offset it read under the lock: published history 2, 3, 2. *)
+Theorem C05_monotone_refuted_empty_publish :
+  exists s, run (init (mkCfg 0 0 0 1)) empty_publish_witness = Some s /\
+            s_pubs s = [2; 3; 2] /\ s_pcs s 1%nat = PRet (mkBatch 1 0 1 (one_raw 2)) true.
+Proof. exact monotone_refuted_empty_publish. Qed.
+Print Assumptions C05_monotone_refuted_empty_publish.
+
+(* characterisation of BOTH findings, over every run (any concurrency, faults, crashes,
+   restarts): the store value is only ever lowered by an onFlush callback, and only by one
+   that was overtaken -- [ov t] says that since thread t's callback became pending (at its
+   commit, or when its empty Flush read the committed offset) another thread's callback
+   reached the store. There is no other way to regress. *)
+Theorem C05_store_lowered_only_by_callback : forall c evs s e s',
+  run (init c) evs = Some s -> step s e = Some s' -> s_store s' < s_store s ->
+  exists t, e = ECallback t true.
+Proof. exact store_lowered_only_by_callback. Qed.
+Print Assumptions C05_store_lowered_only_by_callback.
+
+Theorem C05_regress_only_when_overtaken : forall c evs s ov t s',
+  runG (init c) (fun _ => false) evs = Some (s, ov) ->
+  step s (ECallback t true) = Some s' -> s_store s' < s_store s -> ov t = true.
+Proof. exact regress_only_when_overtaken. Qed.
+Print Assumptions C05_regress_only_when_overtaken.
+
+(* the statement on the complement of the findings' schedule class: runs in which at most
+   one onFlush callback is pending at any time -- any number of producers, any S3/store
+   faults, empty-flush publishes, crashes and restarts included. *)
+Theorem C05_monotone_partial : forall c s ov,
+  reach_serial_all c s ov -> nondecreasing_newest_first (s_pubs s).
+Proof. exact monotone_serial. Qed.
 Print Assumptions C05_monotone_partial.
 
 Example C05_nonvacuous :
